@@ -1173,7 +1173,8 @@ class Exec:
     def ev(self, n, st):
         m = getattr(self, 'ev_' + type(n).__name__, None)
         if m is None:
-            raise Unsupported(f'expression {type(n).__name__} at line {getattr(n, "lineno", "?")}')
+            # an expression form that is not modelled: its value is unknown (no query can match it), the path goes on
+            return [(st, ('unknown', new_uid()))]
         return m(n, st)
 
     def ev_Constant(self, n, st):
@@ -1397,6 +1398,8 @@ class Exec:
                 out.append((x, ('dict', new_uid(), tuple((('const', k), val) for k, val in kws))))
                 continue
             target = self.callee(f, x)
+            if target is not None and target[0].name in self.mod.no_inline:
+                target = None
             if target is not None and len(args) >= 1 and args[-1][0] == 'star' and not any(a[0] == 'star' for a in args[:-1]) \
                     and not any(k == '**' for k, _ in kws):
                 # f(a, *rest): the starred value supplies exactly the remaining positional parameters
@@ -1406,7 +1409,11 @@ class Exec:
                     rest = args[-1][1]
                     args = tuple(args[:-1]) + tuple(self.mk_item(rest, i) for i in range(npos - (len(args) - 1)))
             if target is not None and not any(a[0] == 'star' for a in args) and not any(k == '**' for k, _ in kws):
-                res = self.inline(target, f, args, kws, x, n)
+                probe = x.fork()
+                try:
+                    res = self.inline(target, f, args, kws, probe, n)
+                except Unsupported:
+                    res = None          # something in the helper is outside the modelled subset: keep it as an opaque call
                 if res is not None:
                     out += res
                     continue
